@@ -75,6 +75,18 @@ Theorem C12_annex_cell_exact : forall missing (tables : list table) outt (j : na
                                (map (skipn j) (map (fun t => tl t) tables))))).
 Proof. exact annex_model_cell_exact. Qed.
 
+(* non-vacuity: annex on the operator model: a long row in the SECOND table is trimmed to that table's own width, a short row
+   padded, an exhausted table filled with `missing` *)
+Example C12_ex_annex :
+  annex_model (VStr [77])
+    [[[VStr [97]; VStr [98]]; [VNum KInt (Fin 1)]; [VNum KInt (Fin 2); VNum KInt (Fin 3)]];
+     [[VStr [99]]; [VNum KInt (Fin 4); VNum KInt (Fin 5); VNum KInt (Fin 6)]; [VNone]; [VNum KInt (Fin 7)]]]
+  = ([[VStr [97]; VStr [98]; VStr [99]];
+      [VNum KInt (Fin 1); VStr [77]; VNum KInt (Fin 4)];
+      [VNum KInt (Fin 2); VNum KInt (Fin 3); VNone];
+      [VStr [77]; VStr [77]; VNum KInt (Fin 7)]], None).
+Proof. vm_compute. reflexivity. Qed.
+
 Print Assumptions C12_one_row_per_row.
 Print Assumptions C12_rows_in_input_order.
 Print Assumptions C12_cut_cell.
